@@ -724,8 +724,13 @@ where
                                             }
                                         });
                                     };
-                                    if !buffered_lcs.remove(&lc2.id) && moved_msgs != lc2_msgs {
-                                        println!("merged lc was not in buffered_lcs or its msgs not buffered anymore!\n {:?}\n {:?} msg #{}, moved_msgs={} vs {}", prev_lc, lc2, last_msg_index, moved_msgs, lc2_msgs);
+                                    if !buffered_lcs.remove(&lc2.id) {
+                                        // lc2 was confirmed already and thus published to lcs_w. As it's merged now
+                                        // (and no msg with its id has been sent) it needs to be removed from there as well:
+                                        lcs_w.empty(lc2.id);
+                                        if moved_msgs != lc2_msgs {
+                                            println!("merged lc was not in buffered_lcs or its msgs not buffered anymore!\n {:?}\n {:?} msg #{}, moved_msgs={} vs {}", prev_lc, lc2, last_msg_index, moved_msgs, lc2_msgs);
+                                        }
                                     }
                                     remove_last_lc = true;
                                 } else {
